@@ -128,8 +128,8 @@ func saveFound(test, sig, msg string, c Case) {
 
 func fuzzBytes(f *testing.F, format, only string) {
 	for _, c := range seedCases() {
-		if c.Kind != "bytes" || (only == "" && c.Format != format) {
-			continue
+		if c.Kind != "bytes" || (only == "" && c.Format != format) || c.Only != "" {
+			continue // (cases restricted with Only are the slow regression inputs)
 		}
 		in := applyScript(c.Base, c.Splice, c.Script)
 		if len(in) <= maxFuzzInput {
@@ -263,6 +263,11 @@ func runFuzzRun(c FuzzRun) *vt.Outcome {
 			o.Fail = vt.Failf(rf.Sig, "native fuzz target %s found (replay saved as %s): %s", c.Target, dst, rf.Msg)
 		}
 	}
+	if o.Fail == nil && len(crashers) > 0 && !reproduces(harness, args, c.Target, crashers[0]) {
+		// e.g. a worker killed under memory or time pressure: nothing to replay
+		o.Label("nonreproducible-fuzz-crasher")
+		crashers = nil
+	}
 	if o.Fail == nil && len(crashers) > 0 {
 		// the worker process died (panic on a reader goroutine, fatal error):
 		// convert the fuzzer's crasher file into a replayable case
@@ -287,6 +292,28 @@ func runFuzzRun(c FuzzRun) *vt.Outcome {
 		return &vt.Outcome{Skip: "native-fuzz-did-not-run:" + firstLine(tail(text, 400))}
 	}
 	return o
+}
+
+// reproduces runs the saved crasher file as a plain seed of its target (no
+// fuzzing) in a child process, twice, and reports whether it fails.
+func reproduces(harness string, fuzzArgs []string, target, crasher string) bool {
+	var args []string
+	for _, a := range fuzzArgs {
+		if strings.HasPrefix(a, "-modfile=") {
+			args = append(args, a)
+		}
+	}
+	args = append([]string{"test", "-tags", "verif", "-vet=off", "-count=1", "-timeout", "600s", "-run", "^" + target + "$/^" + filepath.Base(crasher) + "$"}, args...)
+	args = append(args, "./c11")
+	for i := 0; i < 2; i++ {
+		cmd := exec.Command("go", args...)
+		cmd.Dir = harness
+		cmd.Env = append(os.Environ(), "GOFLAGS=-mod=mod", "GOPROXY=off", "GOSUMDB=off", "GOTOOLCHAIN=local", "VERIF_OUT=", "VERIF_NO_BREADCRUMB=1", "VERIF_FUZZ_OUT="+os.TempDir())
+		if err := cmd.Run(); err != nil {
+			return true
+		}
+	}
+	return false
 }
 
 func tail(s string, n int) string {
